@@ -159,6 +159,52 @@ theorem rr_periodic (n : Int) (hn : 0 < n) (k : Nat) (p : Int) (hp : 0 ≤ p ∧
     have := Int.toNat_of_nonneg (Int.le_of_lt hn); omega
   rw [this, ← Int.add_assoc, Int.add_emod_right]
 
+/-- state of the round-robin partitioner after a run -/
+def rrEnd : Int → List Int → Int
+  | p, [] => p
+  | p, n :: ns => rrEnd (rrStep p n).2 ns
+
+theorem rrRun_append (p : Int) (a b : List Int) :
+    rrRun p (a ++ b) = rrRun p a ++ rrRun (rrEnd p a) b := by
+  induction a generalizing p with
+  | nil => rfl
+  | cons n a ih => simp [rrRun, rrEnd, ih]
+
+theorem rrEnd_replicate_range (n : Int) (hn : 0 < n) (k : Nat) (p : Int) (hp : 0 ≤ p ∧ p ≤ n) :
+    0 ≤ rrEnd p (List.replicate k n) ∧ rrEnd p (List.replicate k n) ≤ n := by
+  induction k generalizing p with
+  | zero => simpa [rrEnd] using hp
+  | succ k ih =>
+    have hs := rr_step_range p n hp.1 hn
+    simp only [List.replicate_succ, rrEnd]
+    exact ih _ ⟨hs.2.2.1, hs.2.2.2⟩
+
+theorem rr_window_count (n : Int) (hn : 0 < n) (p : Int) (hp : 0 ≤ p ∧ p ≤ n) (j : Int) (hj : 0 ≤ j ∧ j < n) :
+    (rrRun p (List.replicate n.toNat n)).count j = 1 := by
+  have hnd : (rrRun p (List.replicate n.toNat n)).Nodup := by
+    rw [List.nodup_iff_pairwise_ne, List.pairwise_iff_getElem]
+    intro a b ha hb hab e
+    have := rr_window_injective n hn p hp a b ha hb e
+    omega
+  have hmem : j ∈ rrRun p (List.replicate n.toNat n) := by
+    obtain ⟨i, hi, e⟩ := rr_covers_all n hn p hp j hj
+    exact List.mem_iff_getElem.mpr ⟨i, hi, e⟩
+  rw [hnd.count, if_pos hmem]
+
+/-- fairness: over k·n consecutive calls with a fixed count n, from every reachable state, every partition is
+    chosen exactly k times -/
+theorem rr_fair (n : Int) (hn : 0 < n) (k : Nat) (p : Int) (hp : 0 ≤ p ∧ p ≤ n) (j : Int) (hj : 0 ≤ j ∧ j < n) :
+    (rrRun p (List.replicate (k * n.toNat) n)).count j = k := by
+  induction k generalizing p with
+  | zero => simp [rrRun]
+  | succ k ih =>
+    have : (k + 1) * n.toNat = n.toNat + k * n.toNat := by rw [Nat.succ_mul, Nat.add_comm]
+    rw [this, ← List.replicate_append_replicate, rrRun_append, List.count_append, rr_window_count n hn p hp j hj,
+      ih _ (rrEnd_replicate_range n hn _ p hp)]
+    omega
+
+example : (rrRun 1 (List.replicate (2 * 3) 3)).count 2 = 2 := by decide
+
 /-- manual partitioner: identity (stated on the routing function: a manual choice `c` within range is
     looked up unchanged) -/
 theorem manual_identity (parts : List Int) (c : Int) (h0 : 0 ≤ c) (h1 : c < parts.length) :
